@@ -409,4 +409,45 @@ def _replay_writer(fn_name, d, seed):
         shutil.rmtree(tmp, ignore_errors=True)
 
 
-UNITS = [ReadNeighbors(), CutoffNeighbors()]
+class CutoffNeighborsParticleType(CutoffNeighbors):
+    """cutoff chosen by the centre's type (row) and the neighbour's type (column) of the K x K matrix r_cut"""
+    qualname = "cutoffneighbors_particletype"
+
+    def cases(self):
+        return [f"d={d}/K={K}" for d in (2, 3) for K in (1, 2, 3)]
+
+    def setup(self, ctx, case):
+        d, K = int(case[2]), int(case[-1])
+        tr = Traj(ctx, d, same_types=True)         # species are a property of the particle: the same in every frame
+        self._finish_base(ctx, tr, d)
+        p = [ctx.int(f"ppp_{k}") for k in range(d)]
+        for k in range(d):
+            ctx.assume(sv.or_(sv.cmp("==", p[k], 0), sv.cmp("==", p[k], 1)))
+        ppp = A.from_nested(p, "int")
+        ctx.array_fact("TYPE", lambda s, i: z3.And(tr.TYPE(s, i) >= 1, tr.TYPE(s, i) <= K))
+        rcm = [[ctx.real(f"rc_{a+1}{b+1}") for b in range(K)] for a in range(K)]
+        for a in range(K):
+            for b in range(K):
+                ctx.assume(rcm[a][b] >= 0)
+        rc = A.from_nested(rcm, "float")
+        snaps = tr.snapshots()
+        inp = dict(tr=tr, p=p, rcm=rcm, K=K, s=ctx.int("s"), i=ctx.int("i"), t=ctx.int("t"), u=ctx.int("u"), j=ctx.int("j"))
+        return [snaps, rc, ppp, "nb.dat"], {}, inp
+
+    def _finish_base(self, ctx, tr, d):
+        from contracts.C02 import _inv_spec
+        ctx.array_fact("HM", lambda s, a, b: sv.zb(sv.cmp("!=", _inv_spec(tr.Hm(sv.SV(s)), d)[0], 0)))
+        register_minimg_facts(ctx, d)
+
+    def cutoff(self, inp, s, i, j):
+        tr, K, rcm = inp["tr"], inp["K"], inp["rcm"]
+        ti, tj = tr.typ(s, i), tr.typ(s, j)
+        rows = [A._pick([sv.norm(x) for x in rcm[a]], sv.sub(tj, 1)) for a in range(K)]
+        return A._pick(rows, sv.sub(ti, 1))
+
+    def raises(self, ctx, case, inp, out):
+        # documented input validation: the matrix must have one row per species present in the first frame
+        return out.exc == "IOError" and "atom_type_number" in (out.msg or "")
+
+
+UNITS = [ReadNeighbors(), CutoffNeighbors(), CutoffNeighborsParticleType()]
